@@ -182,13 +182,17 @@ pub fn catch<T>(f: impl FnOnce() -> T) -> Result<T, String> {
     match std::panic::catch_unwind(std::panic::AssertUnwindSafe(f)) {
         Ok(v) => Ok(v),
         Err(e) => {
-            let s = if let Some(s) = e.downcast_ref::<&str>() {
-                s.to_string()
-            } else if let Some(s) = e.downcast_ref::<String>() {
-                s.clone()
-            } else {
-                "<non-string panic>".to_string()
-            };
+            // the message is harness bookkeeping: keep it out of the shadow allocator's books
+            let s = crate::shadow::untracked(|| {
+                if let Some(s) = e.downcast_ref::<&str>() {
+                    s.to_string()
+                } else if let Some(s) = e.downcast_ref::<String>() {
+                    s.clone()
+                } else {
+                    "<non-string panic>".to_string()
+                }
+            });
+            drop(e);
             Err(s)
         }
     }
@@ -222,4 +226,60 @@ pub fn jset(s: &std::collections::BTreeSet<u64>) -> String {
     }
     o.push(']');
     o
+}
+
+// ---- crash attribution ------------------------------------------------------------------------
+// The engines note which operation (and which properties it serves) is in flight; if the process
+// dies with a fatal signal inside the library, a handler prints one record so the driver can
+// attribute the crash instead of calling the run inconclusive.
+
+static CUR_OP: std::sync::atomic::AtomicPtr<u8> = std::sync::atomic::AtomicPtr::new(std::ptr::null_mut());
+static CUR_LEN: std::sync::atomic::AtomicUsize = std::sync::atomic::AtomicUsize::new(0);
+
+/// `what` = "<props>|<operation>", e.g. "C09,C01|UniqueArc::into_inner".
+#[inline]
+pub fn set_op(what: &'static str) {
+    CUR_LEN.store(what.len(), std::sync::atomic::Ordering::Relaxed);
+    CUR_OP.store(what.as_ptr() as *mut u8, std::sync::atomic::Ordering::Relaxed);
+}
+
+#[cfg(all(unix, not(miri)))]
+mod crash {
+    extern "C" {
+        fn signal(sig: i32, handler: usize) -> usize;
+        fn write(fd: i32, buf: *const u8, n: usize) -> isize;
+        fn raise(sig: i32) -> i32;
+    }
+    extern "C" fn on_signal(sig: i32) {
+        unsafe {
+            let p = super::CUR_OP.load(std::sync::atomic::Ordering::Relaxed);
+            let n = super::CUR_LEN.load(std::sync::atomic::Ordering::Relaxed);
+            let head = b"\n@@{\"t\":\"crash\",\"sig\":";
+            write(1, head.as_ptr(), head.len());
+            let d = [b'0' + (sig / 10) as u8, b'0' + (sig % 10) as u8];
+            write(1, d.as_ptr(), 2);
+            let mid = b",\"op\":\"";
+            write(1, mid.as_ptr(), mid.len());
+            if !p.is_null() {
+                write(1, p, n);
+            }
+            let tail = b"\"}\n";
+            write(1, tail.as_ptr(), tail.len());
+            signal(sig, 0);
+            raise(sig);
+        }
+    }
+    pub fn install() {
+        unsafe {
+            for sig in [11, 7, 4, 8] {
+                signal(sig, on_signal as usize);
+            }
+        }
+    }
+}
+
+/// Install the fatal-signal reporter (native, non-sanitizer runs only).
+pub fn install_crash_reporter() {
+    #[cfg(all(unix, not(miri)))]
+    crash::install();
 }
